@@ -61,7 +61,14 @@ def run_sequence(ctx, rng):
         def shutdown(self):
             steps.append(("plugin", self.i))
             if current["faults"] and current["faults"]["plugins"][self.i]:
+                self.broken = True           # a plugin in this state cannot even say what it is
                 raise RuntimeError("plugin %d cannot shut down" % self.i)
+
+        def __str__(self):
+            if getattr(self, "broken", False) and self.i % 2 == 0:
+                raise RuntimeError("plugin %d has no text form" % self.i)
+            return "Plug(%d)" % self.i
+        __repr__ = __str__
     plugs = [Plug(i) for i in range(nplug)]
 
     class Poll:
@@ -214,6 +221,52 @@ def run_sequence(ctx, rng):
     return lit, dict(no_trace=no_trace, plugins=nplug, hooks_before=[s0, t0], ops=ops), problems
 
 
+def restart_with_real_poller(ctx):
+    """start / shutdown / start / shutdown ... on ONE agent with the real poller (its timer thread) and the real task handler:
+    every start installs the hooks, every shutdown puts back exactly what was there, and nothing raises."""
+    import deep.api.deep as api
+    from deep.config.config_service import ConfigService
+    from deep.config.tracepoint_config import TracepointConfigService
+    saved_load = api.load_plugins
+    api.load_plugins = lambda config, custom=None: []
+    old_sys, old_thr = sys.gettrace(), threading.gettrace()
+    problems = []
+    try:
+        cfg = ConfigService({"APP_ROOT": "/app", "SERVICE_URL": "localhost:1", "POLL_TIMER": 3600}, tracepoints=TracepointConfigService())
+        d = api.Deep(cfg)
+        d.grpc.start = lambda: None
+        sys.settrace(host_a)
+        threading.settrace(host_b)
+        for cycle in range(3):
+            try:
+                d.start()
+            except BaseException as e:
+                problems.append(("restart-start-raised", "start number %d on the same agent raised %r" % (cycle + 1, e)))
+            if sys.gettrace() is host_a or not d.started:
+                problems.append(("restart-not-started", "after start number %d the agent is not tracing (started=%s)" % (cycle + 1, d.started)))
+            try:
+                d.shutdown()
+            except BaseException as e:
+                problems.append(("restart-shutdown-raised", "shutdown number %d raised %r" % (cycle + 1, e)))
+            if sys.gettrace() is not host_a or threading.gettrace() is not host_b or d.started:
+                problems.append(("restart-hooks", "after start / shutdown number %d the trace hooks are (%s, %s) and started=%s; before "
+                                 "the first start they were (host_a, host_b)" % (cycle + 1, hook_no(sys.gettrace(), d.trigger_handler.trace_call),
+                                                                                  hook_no(threading.gettrace(), d.trigger_handler.trace_call), d.started)))
+            if problems:
+                break
+    finally:
+        sys.settrace(old_sys)
+        threading.settrace(old_thr)
+        api.load_plugins = saved_load
+    j = dict(history="start, shutdown, start, shutdown, start, shutdown on one agent; real LongPoll and TaskHandler; hooks before: host_a, host_b")
+    ctx.case(j, nontrivial=True, bucket="restart")
+    seen = set()
+    for tag, what in problems:
+        if tag not in seen:
+            seen.add(tag)
+            ctx.fail(what, j, kind="history", tag=tag)
+
+
 def e2_clear():
     from deep.thread_local import ThreadLocal
     ThreadLocal._ThreadLocal__store.clear()
@@ -221,8 +274,8 @@ def e2_clear():
 
 def run(ctx):
     import logging
-    logging.getLogger("deep").setLevel(logging.CRITICAL + 1)
-    logging.getLogger().setLevel(logging.CRITICAL + 1)
+    from ..lib.quiet import quiet_logging
+    quiet_logging()
     ctx.rule = ("sequences of 1-7 operations from {start, shutdown with a random subset of {flush, poll stop, each plugin} failing, "
                 "the host sets its own hooks (only while the agent does not own them)} x tracing enabled/disabled x 0-3 plugins x "
                 "pre-existing sys/threading trace functions from {none, three host functions}. Non-trivial: a shutdown of a "
@@ -248,6 +301,7 @@ def run(ctx):
         lits.append(lit)
         cj.append(j)
     ctx.correspond("lifecycle", IMPORTS, "life_case", "check_life_case", lits, cj, shard=100)
+    restart_with_real_poller(ctx)
 
 
 def replay(ctx, data):
